@@ -341,86 +341,68 @@ def run(ctx):
     ctx.rule("castling-letters")
     letters = {"short": set(), "long": set()}
     rights_any = lambda y: y[0] == "get" and y[1] == "castle_rights"
-
-    def letter_values(opt, wing, conds):
-        """what an Option<char> expression can write for `wing`, given the path's decisions"""
-        if opt[0] == "call" and opt[1].endswith("::map") and opt[2][1][0] == "closure":
-            src = opt[2][0]
-            okw = src[0] == "field" and src[2] == wing and sym.contains(src, rights_any)
-            cb = f.bodies.get(opt[2][1][1])
-            vals = set()
-            if cb is not None and okw:
-                for cp in sym.SymExec(f, cb).run():
-                    r = cp.ret
-                    sh = [c[1] for c in cp.conds if c[0][0] in ("deref", "field", "param") or sym.contains(c[0], lambda y: y[0] == "param")]
-                    if r[0] == "int":
-                        vals.add((chr(r[1]), tuple(sh)))
-                    elif r[0] == "call" and r[1].endswith("Into<U>>::into"):
-                        vals.add(("<file letter>", tuple(sh)))
-            return {v for v, _ in vals}
-        if opt[0] == "agg" and opt[2] == "Some":
-            x = dict(opt[4])["0"]
-            if x[0] == "int":
-                return {chr(x[1])}
-            if x[0] == "call" and x[1].endswith("Into<U>>::into") and sym.contains(x, lambda y: y[0] == "field" and y[2] == wing) and sym.contains(x, rights_any):
-                return {"<file letter>"}
-            return {"?" + sym.show(x)[:40]}
-        if opt[0] == "agg" and opt[2] == "None":
-            return set()
-        return {"?" + sym.show(opt)[:40]}
-    for p in lbs + [q for q in paths if q.end == "return"]:
-        for e in p.events:
-            if e.kind == "call" and e.depth == 0 and e.name.endswith("Iterator::chain"):
-                first, second = L.lift(e.args[0]), L.lift(e.args[1])
-                while first[0] == "iter":
-                    first = first[1]
-                while second[0] == "iter":
-                    second = second[1]
-                sh = [c[1] for c in p.conds if L.lift(c[0]) == ("call", "core::fmt::Formatter<'a>::alternate", (("ptr", ("P", "f"), (), False),)) or
-                      sym.contains(L.lift(c[0]), lambda y: y[0] == "call" and y[1].endswith("::alternate"))]
-                for opt, wing in ((first, "short"), (second, "long")):
-                    vals = letter_values(opt, wing, p.conds)
-                    # inlined-helper form: the letter depends on the alternate flag decided on this path
-                    if opt[0] == "agg" and sh:
-                        for v in vals:
-                            if v == "<file letter>":
-                                ctx.check(sh[-1] == 1, "writer:file-letter-only-shredder", "a file letter is written for a castling right outside Shredder (alternate) mode", where)
-                            elif len(v) == 1:
-                                ctx.check(sh[-1] == 0, "writer:kq-only-plain", "'%s' is written for a castling right in Shredder (alternate) mode" % v, where)
-                    letters[wing] |= vals
+    # Every castling letter written, read off the emission stream of one pass over a colour (after desugaring, the
+    # `short.into_iter().chain(long)` idiom, an explicit pair of ifs and a loop over [(short,'k'),(long,'q')] are the same
+    # paths): which right it stands for, plain letter or file letter, its case, and the order of the two wings.
+    seen_up = set()
+    nletters = 0
+    for p in lbs:
+        colour_loop = [c for c in p.conds if c[0][0] == "discr" and c[0][1][0] == "next" and c[1] == 1 and
+                       sym.contains(c[0], lambda y: y[0] == "array" and len(y[1]) == 2 and y[1][0][0] == "enum" and y[1][0][1] == COLOR)]
+        if not colour_loop:
+            continue
+        lifted = [(L.lift(c[0]), c[1]) for c in p.conds]
+        alt = [v for e_, v in lifted if sym.contains(e_, lambda y: y[0] == "call" and y[1].endswith("::alternate")) and isinstance(v, int)]
+        white = None
+        for e_, v in lifted:
+            if e_[0] == "bin" and e_[1] in ("Eq", "Ne") and ("enum", COLOR, "White") in (e_[2], e_[3]) and not sym.contains(e_, lambda y: y[0] == "color_on") and isinstance(v, int):
+                white = (e_[1] == "Eq") == bool(v)
+        present = {}
+        for e_, v in lifted:
+            if e_[0] == "discr" and e_[1][0] == "field" and e_[1][2] in ("short", "long") and sym.contains(e_[1][1], rights_any) and isinstance(v, int):
+                present[e_[1][2]] = (v == 1)
+        order = []
+        for t_, a_, e_ in writes(L, p):
+            if t_ != "{}" or not a_:
+                continue
+            x = a_[0]
+            while x[0] in ("ref", "deref"):
+                x = x[1]
+            upper = x[0] == "call" and x[1].endswith("to_ascii_uppercase")
+            if upper:
+                x = x[2][0]
+                while x[0] in ("ref", "deref"):
+                    x = x[1]
+            wing = val = None
+            if x[0] == "int" and chr(x[1]) in "kq":
+                wing, val = ("short" if chr(x[1]) == "k" else "long"), chr(x[1])
+            elif x[0] == "call" and x[1].endswith("Into<U>>::into") and sym.contains(x, rights_any):
+                fs = sym.subterms(x, lambda y: y[0] == "field" and y[2] in ("short", "long") and sym.contains(y[1], rights_any))
+                if fs:
+                    wing, val = fs[0][2], "<file letter>"
+            if wing is None:
+                continue
+            nletters += 1
+            order.append(wing)
+            letters[wing].add(val)
+            ctx.check(present.get(wing) is True, "writer:letter-only-for-held-right", "a castling letter is written for a right that was not tested to be present (%s)" % wing, where)
+            if val == "<file letter>":
+                ctx.check(bool(alt) and alt[-1] == 1, "writer:file-letter-only-shredder", "a file letter is written for a castling right outside Shredder (alternate) mode", where)
+            else:
+                ctx.check(bool(alt) and alt[-1] == 0, "writer:kq-only-plain", "'%s' is written for a castling right in Shredder (alternate) mode" % val, where)
+            ctx.check(white is not None and white == upper, "writer:castle-case", "a castling letter is not upper-cased exactly for White", where)
+            seen_up.add(upper)
+            cols = sym.subterms(colour_loop[-1][0], lambda y: y[0] == "array" and len(y[1]) == 2 and y[1][0][0] == "enum" and y[1][0][1] == COLOR)
+            ctx.check(bool(cols) and [z[2] for z in cols[0][1]] == ["White", "Black"], "writer:white-before-black", "castling letters are not written for White first", where)
+        ctx.check(order in ([], ["short"], ["long"], ["short", "long"]), "writer:short-before-long", "castling letters of one colour are not written short then long: %s" % order, where)
+        # a right that is held gets its letter on this pass
+        for wing, pr in present.items():
+            if pr and len(present) == 2:
+                ctx.check(wing in order, "writer:held-right-written", "a held %s right gets no letter" % wing, where)
+    ctx.floor("castling letters written on the paths of one colour pass", nletters, 8)
     ok = letters == {"short": {"<file letter>", "k"}, "long": {"<file letter>", "q"}}
     ctx.check(ok, "writer:castle-letters", "the writer's castling letters are not {file letter | 'k'} for short and {file letter | 'q'} for long: %s" % {k: sorted(v) for k, v in letters.items()}, where,
               sample={"writer": {k: sorted(v) for k, v in letters.items()}})
-    # order short then long, colours White then Black, uppercase iff White
-    seen_up = set()
-    for p in lbs:
-        for t, a, e in writes(L, p):
-            is_castle_letter = t == "{}" and a and not sym.contains(a[0], lambda y: y[0] == "piece_on") and \
-                any(c[0][0] == "discr" and c[0][1][0] == "next" and c[1] == 1 and sym.contains(c[0], lambda y: y[0] == "call" and y[1].endswith("Iterator::chain")) for c in p.conds)
-            if is_castle_letter:
-                chs = [c[0] for c in p.conds if c[0][0] == "discr" and c[0][1][0] == "next" and sym.contains(c[0], lambda y: y[0] == "call" and y[1].endswith("Iterator::chain"))]
-                ch = sym.subterms(L.lift(chs[-1]), lambda y: y[0] == "call" and y[1].endswith("Iterator::chain"))[0]
-                first, second = ch[2][0], ch[2][1]
-                fs = sym.contains(first, lambda y: y[0] == "field" and y[2] == "short")
-                sl = sym.contains(second, lambda y: y[0] == "field" and y[2] == "long")
-                fl_ = sym.contains(first, lambda y: y[0] == "field" and y[2] == "long")
-                ss_ = sym.contains(second, lambda y: y[0] == "field" and y[2] == "short")
-                # when the options are plain constants on this path (helper inlined) the order is checked through the letters
-                order_ok = (fs or not fl_) and (sl or not ss_)
-                ctx.check(order_ok, "writer:short-before-long", "castling letters of one colour are not written short then long", where)
-                upper = a[0][0] == "call" and a[0][1].endswith("to_ascii_uppercase")
-                white = None
-                for c in p.conds:
-                    ce = L.lift(c[0])
-                    if ce[0] == "bin" and ce[1] == "Eq" and ("enum", COLOR, "White") in (ce[2], ce[3]) and not sym.contains(ce, lambda y: y[0] == "color_on"):
-                        white = bool(c[1])
-                ctx.check(white is not None and white == upper, "writer:castle-case", "a castling letter is not upper-cased exactly for White", where)
-                seen_up.add(upper)
-                colours = []
-                for c in p.conds:
-                    if c[0][0] == "discr" and c[0][1][0] == "next":
-                        colours += sym.subterms(c[0], lambda y: y[0] == "array" and len(y[1]) == 2 and y[1][0][0] == "enum" and y[1][0][1] == COLOR)
-                ctx.check(bool(colours) and [x[2] for x in colours[0][1]] == ["White", "Black"], "writer:white-before-black", "castling letters are not written for White first", where)
     ctx.check(seen_up == {True, False}, "writer:castle-cases", "castling letter writer lacks an upper- or lower-case path", where)
     dash = [p for p in rets if ("-", ()) in [(t, a) for t, a, e in writes(L, p)]]
     for p in dash:
